@@ -420,6 +420,7 @@ def check(repo, run, tier):
     g(unitrules.include_init, repo, run, 'C06.R2')
     g(unitrules.stream_init, repo, run, 'C06.R7')
     g(unitrules.path_node_tables, repo, run, 'C06.R6')
+    g(unitrules.tag_spec, repo, run, 'C06.R2', ['!include', '!rec', '!path', '!path:'])
     g.done()
 
 
@@ -437,6 +438,7 @@ def merge_two(r):
 
 def mutants(repo):
     return [
+        Mutant('multi-constructors-not-registered', lambda r: in_func(r, 'yaml.add_multi_constructor', "    yaml.add_multi_constructor(tag, constructor, Loader=AwesomeyamlLoader)", "    pass"), ['C06.R2']),
         Mutant('parent-clamp-negated', lambda r: in_func(r, 'PathNode.ayns.on_evaluate_impl', "if ref_point_args >= len(src.parents):", "if not ref_point_args >= len(src.parents):"), ['C06.R6']),
         Mutant('path-ref-point-parse', lambda r: in_func(r, 'PathNode.__init__', "            if parent_match:\n                idx = 0", "            if not parent_match:\n                idx = 0"), ['C06.R6']),
         Mutant('include-as-raw-yaml', lambda r: in_func(r, 'IncludeNode.ayns.on_preprocess_impl', "subbuilder.add_source(file, raw_yaml=False, safe=self.ayns.safe)", "subbuilder.add_source(file, safe=self.ayns.safe)"), ['C06.R2']),
